@@ -80,12 +80,18 @@ def _step(draw):
     if yscale != 1.0 and draw(st.booleans()):
         hmag = 10.0 ** draw(st.floats(1, 4))
         zmag = 10.0 ** draw(st.floats(-1, 1.5))
-    return dict(part="step", method=name, zmag=zmag, ang=ang, kind=kind, h=hmag * draw(st.sampled_from([1.0, -1.0])), yscale=yscale,
+    unit_rate = draw(st.sampled_from([False] * 5 + [True]))
+    if unit_rate:
+        kind, ang = "real", np.pi
+    return dict(part="step", method=name, zmag=zmag, ang=ang, kind=kind, h=hmag * draw(st.sampled_from([1.0, -1.0] if not unit_rate else [1.0, -1.0, -1.0])), yscale=yscale,
                 tol=draw(st.sampled_from([1e-6, 1e-9, 1e-12])), user_jac=draw(st.booleans()),
                 y0=[draw(st.sampled_from([1.0, -0.5, 2.0, 1e-3])), draw(st.sampled_from([0.0, 1.0, -2.0]))],
                 # the judged step continues, on the same integrator object, a step taken with lambda x warm (the constant of
                 # the rhs is then changed: new dict or edited in place)
-                warm=draw(st.sampled_from([None, None, 40.0, 0.025, 1.0])), inplace=draw(st.booleans()))
+                warm=draw(st.sampled_from([None, None, 40.0, 0.025, 1.0])), inplace=draw(st.booleans()),
+                # lambda = -+1 exactly, and for a negative step (lambda = +1) the test equation written as `return y`: the function
+                # hands back the array it was given
+                unit_rate=unit_rate)
 
 
 def parts(tier):
@@ -167,6 +173,8 @@ def _check_step(case):
         lam = complex(0.0, abs(lam))
     if lam.real > 0:
         lam = complex(0.0, lam.imag)
+    if case.get("unit_rate") and case["kind"] == "real":
+        lam = complex(-1.0, 0.0)
     if h < 0:
         lam = -lam   # Re(lambda h) <= 0 with a negative step
     tol = case["tol"]
@@ -181,8 +189,12 @@ def _check_step(case):
 
     class F(object):
         def __call__(self, t, y, k=1.0, **kw):
+            if case.get("unit_rate") and case["kind"] == "real" and h < 0 and k == 1.0 and isinstance(y, np.ndarray):
+                return y          # y' = y, literally
             return k * (Amat @ y)
     f = F()
+    if case.get("unit_rate") and case["kind"] == "real" and h < 0:
+        labels.append("rhs_returns_its_argument")
     if case["user_jac"]:
         f.jac = lambda t, y, k=1.0, **kw: k * Amat
     rhs = DiffRHS(f)
